@@ -346,11 +346,17 @@ def run(ctx):
     # declared header count: first print, '%d, %d' % (EXPR, 1001)
     first = prints[0].value.args[0]
     declared = None
-    if isinstance(first, ast.BinOp) and isinstance(first.op, ast.Mod) and isinstance(first.right, ast.Tuple):
-        declared = to_poly(first.right.elts[0], atomize=atomize)
-        fmtid = first.right.elts[1]
-        if not (isinstance(fmtid, ast.Constant) and fmtid.value == 1001):
-            ctx.violation(Finding('R-LINEORDER', RP, W, prints[0], 'first header line does not end with the format id 1001'))
+    if isinstance(first, ast.BinOp) and isinstance(first.op, ast.Mod) and isinstance(first.left, ast.Constant) and isinstance(first.left.value, str):
+        # '<count>, 1001' in any split between the template text and its arguments: '%d, %d' % (n, 1001), '%d, 1001' % (n,), '%d, 1001' % n
+        pieces = re.split(r'%[dis]', first.left.value)
+        fargs = list(first.right.elts) if isinstance(first.right, ast.Tuple) else [first.right]
+        if len(fargs) == len(pieces) - 1 and fargs:
+            declared = to_poly(fargs[0], atomize=atomize)
+            tail = pieces[1]
+            for a_, t_ in zip(fargs[1:], pieces[2:]):
+                tail += (str(a_.value) if isinstance(a_, ast.Constant) else '?') + t_
+            if tail.strip(' ,') != '1001' or pieces[0].strip():
+                ctx.violation(Finding('R-LINEORDER', RP, W, prints[0], 'first header line does not end with the format id 1001'))
     if declared is None:
         raise AnalysisError('construct not understood: declared header count of ncf2ffi1001')
     bad_loops = [l for l in loops if l[1] is None]
@@ -623,6 +629,10 @@ def run(ctx):
             a9 = a9.args[0]
         if isinstance(a9, ast.BinOp) and isinstance(a9.op, ast.Mod) and isinstance(a9.left, ast.Constant) and a9.left.value == '%s':
             a9 = a9.right.elts[0] if isinstance(a9.right, ast.Tuple) and len(a9.right.elts) == 1 else a9.right
+        fields9 = [a9]
+        if isinstance(a9, ast.Call) and isinstance(a9.func, ast.Attribute) and a9.func.attr == 'join' and len(a9.args) == 1 and isinstance(a9.args[0], (ast.List, ast.Tuple)) and a9.args[0].elts:
+            fields9 = list(a9.args[0].elts)
+            a9 = fields9[0]
         locs = dict((s2.targets[0].id, s2.value) for s2 in fn.body if isinstance(s2, ast.Assign) and len(s2.targets) == 1 and isinstance(s2.targets[0], ast.Name))
         t9 = norm(locs.get(a9.id, a9)) if isinstance(a9, ast.Name) else (norm(a9) if a9 is not None else None)
         tcol = norm(locs[colsrc]) if colsrc in locs else colsrc
@@ -631,6 +641,28 @@ def run(ctx):
         else:
             ctx.violation(Finding('R-INDEPSRC', RP, W, p9, 'header line %d names %s but the first data column is f.variables[%s]: when the two differ the file declares one variable as '
                                   'independent and writes another one first; read back, the names label other columns' % (k9, t9, tcol)))
+        # ---- R-INDEPUNITS: the line also carries the units of that variable (the reader takes them from the second field)
+        ctx.rule('R-INDEPUNITS', 'the independent-variable header line carries the units of that variable as its second field (the reader falls back to the name)')
+
+        def _units_of(e):
+            """text of V when e reads the attribute units of V"""
+            if isinstance(e, ast.Call) and dotted(e.func) == 'getattr' and len(e.args) >= 2 and const_str(e.args[1]) == 'units':
+                return norm(locs.get(e.args[0].id, e.args[0])) if isinstance(e.args[0], ast.Name) else norm(e.args[0])
+            if isinstance(e, ast.Attribute) and e.attr == 'units':
+                return norm(locs.get(e.value.id, e.value)) if isinstance(e.value, ast.Name) else norm(e.value)
+            return None
+        u9 = None
+        for fld in fields9[1:2]:
+            fld = locs.get(fld.id, fld) if isinstance(fld, ast.Name) else fld
+            u9 = _units_of(fld)
+        want = ('f.variables[%s]' % t9, 'f.variables[%s]' % (norm(a9) if a9 is not None else ''))
+        if u9 is not None and u9 in want:
+            ctx.ok('R-INDEPUNITS', 'independent variable', where, 'line %d: name, units of %s' % (k9, u9))
+        elif len(fields9) < 2:
+            ctx.violation(Finding('R-INDEPUNITS', RP, W, p9, 'header line %d carries the name of the independent variable only: the reader then uses the name as units, so the units of that variable '
+                                  "(Start_UTC.units = 's') do not survive a write/read cycle" % k9))
+        else:
+            ctx.violation(Finding('R-INDEPUNITS', RP, W, p9, 'the second field of header line %d is %s, not the units of the independent variable %s' % (k9, norm(fields9[1])[:60], want[0])))
     # ---- R-ENCODING: a writer that fixes the text encoding uses the one the reader (and the sniffer) decode with by default
     ctx.rule('R-ENCODING', 'an encoding fixed by the writer is the default encoding of the reader and of isMine')
 
@@ -755,7 +787,11 @@ def run(ctx):
     ctx.rule('R-SCALELINE', 'the scale-factor line declares 1 for every variable (the data block is written as it is), or the data are divided by the declared factor')
     sc_print = prints[consts['SCALE_LINE'] - 1]
     lc = [n for n in ast.walk(sc_print) if isinstance(n, (ast.ListComp, ast.GeneratorExp))]
-    if not lc:
+    rep_ = [n for n in ast.walk(sc_print) if isinstance(n, ast.BinOp) and isinstance(n.op, ast.Mult) and any(
+        isinstance(x_, (ast.List, ast.Tuple)) and len(x_.elts) == 1 and isinstance(x_.elts[0], ast.Constant) and str(x_.elts[0].value) in ('1', '1.0') for x_ in (n.left, n.right))]
+    if not lc and rep_:
+        ctx.ok('R-SCALELINE', 'scale line', where, "constant '1' repeated %s times" % norm(rep_[0].right if isinstance(rep_[0].left, (ast.List, ast.Tuple)) else rep_[0].left))
+    elif not lc:
         ctx.undec('R-SCALELINE', 'scale line', where, 'scale line not built by a comprehension')
     else:
         elt = lc[0].elt
